@@ -36,13 +36,22 @@ impl EnvConverter {
 
     fn convert_tuple(&self, flds: &[(Rc<str>, Rc<Val>)], w: &mut dyn IOWrite) -> ConvertResult {
         for (name, val) in flds.iter() {
-            if val.is_tuple() {
-                eprintln!("Skipping embedded tuple...");
-                return Ok(());
-            }
-            if let &Val::Empty = val.as_ref() {
-                eprintln!("Skipping empty variable: {}", name);
-                return Ok(());
+            // A skipped field must not end the loop or leave a dangling
+            // `NAME=` behind that would merge with the next line.
+            match val.as_ref() {
+                Val::Tuple(_) => {
+                    eprintln!("Skipping embedded tuple...");
+                    continue;
+                }
+                Val::Empty => {
+                    eprintln!("Skipping empty variable: {}", name);
+                    continue;
+                }
+                Val::List(_) | Val::Env(_) | Val::Constraint(_) => {
+                    eprintln!("Skipping {} variable: {}", val.type_name(), name);
+                    continue;
+                }
+                Val::Boolean(_) | Val::Float(_) | Val::Int(_) | Val::Str(_) => {}
             }
             write!(w, "{}=", name)?;
             self.write(val, w)?;
